@@ -47,7 +47,7 @@ def mkjob(rng, name, spk, script, ctrl, args=(), flags=STANDARD, annex=None):
     funding = btc.Tx(version=2, vin=[btc.TxIn(bytes(rng.randrange(256) for _ in range(32)), 0, b"", 0xffffffff)], vout=[btc.TxOut(50000, spk)])
     tx = btc.Tx(version=2, vin=[btc.TxIn(funding.txid(), 0, b"", 0xffffffff)], vout=[btc.TxOut(40000, b"\x51")])
     tx.witness = [list(args) + [script, ctrl] + ([annex] if annex else [])]
-    return SessionJob(name, b"", [], flags, "BASE", cmds=["steps"], cmp=CMP, auto=True, txctx={"tx": tx.hex(), "txin": funding.hex(), "select": -1})
+    return SessionJob(name, b"", [], flags, "BASE", cmds=["steps", "step", "step", "run"], cmp=CMP, auto=True, txctx={"tx": tx.hex(), "txin": funding.hex(), "select": -1})
 
 
 def make_jobs(chk):
@@ -66,7 +66,7 @@ def make_jobs(chk):
                 jobs.append(mkjob(rng, "c%d:m%d:%s:par%d" % (n, m, "-".join(rels), parity_ok), spk, script, ctrl))
     # single-field corruptions of valid commitments
     for m in (0, 1, 2, 5):
-        for rep in range(2 if quick else 10):
+        for rep in range(2 if quick else 40):
             spk, script, ctrl = build(rng, m, ["rnd", "hi31"])
             muts = [("ctrl0", None), ("key", None), ("program", None), ("script", None)] + [("node%d" % i, i) for i in range(m)]
             for mut, idx in muts:
